@@ -28,6 +28,10 @@ func init() {
 	RegisterInternalMessage[*UnwatchMessage]("UnwatchMessage", onUnwatchMessageReader, onUnwatchMessageWriter)
 }
 
+// ActorRefFactory 根据 address 与 path 重建一个 ActorRef（以 any 返回以避免与根包的循环依赖）。
+// 由 internal/actor 在初始化时注入，供根包中携带 ActorRef 字段的内置消息（OnKill、OnKilled）解码时使用。
+var ActorRefFactory func(address, path string) (any, error)
+
 type MessageDesc struct {
 	typeOf      reflect.Type
 	messageName string
